@@ -389,3 +389,57 @@ def c19(run):
     run.validate("Trace_CoinSet", trace)
     return finish(run, assumptions=["coins are identified by pointer identity among the offered list",
                                     "for the min-priority selector only successful selections are constrained (the property states no completeness for it)"])
+
+
+# --------------------------------------------------------------------------- C08
+@prop("C08", "Trace_Robust")
+def c08(run):
+    run.build()
+    cases = run.gen("Gen_Robust")
+    journal = os.path.join(run.dir, "journal.json")
+    traces = []
+    skip, avoid, crashes = 0, [], []
+    for attempt in range(6):
+        name = "trace-C08-%d.ndjson" % attempt
+        args = "journal=%s,skip=%d,avoid=%s" % (journal, skip, "+".join(str(x) for x in avoid))
+        try:
+            trace, _ = run.exec("C08", cases=cases, trace_name=name, args=args, timeout=3000)
+            traces.append(trace)
+            break
+        except pipeline.Infra as ex:
+            # the process died (out of memory, fatal runtime error, stack exhaustion): the journal names the input
+            if not os.path.exists(journal) or os.path.getsize(journal) == 0:
+                raise
+            j = json.load(open(journal))
+            crashes.append({"op": "Robust", "entry": j["entry"], "in": j["in"], "len": len(j["in"]), "outcome": "crash",
+                            "detail": str(ex)[-300:], "cpu_us": 0, "alloc_kib": 0})
+            part = os.path.join(run.dir, name)
+            done = 0
+            if os.path.exists(part):
+                good = []
+                for line in open(part):
+                    try:
+                        done += len(json.loads(line)["ev"])
+                        good.append(line)
+                    except ValueError:
+                        break
+                with open(part, "w") as f:
+                    f.writelines(good)
+                if good:
+                    traces.append(part)
+            avoid.append(j["n"])
+            skip = skip + done
+            pipeline.log("harness process died on %s input of %d bytes; continuing after it" % (j["entry"], len(j["in"])))
+    else:
+        raise pipeline.Infra("harness keeps dying")
+    if crashes:
+        ct = os.path.join(run.dir, "trace-C08-crashes.ndjson")
+        with open(ct, "w") as f:
+            f.write(json.dumps({"h": 1, "ev": crashes}) + "\n")
+        traces.append(ct)
+    for t in traces:
+        run.validate("Trace_Robust", t)
+    return finish(run, assumptions=["time = minimum wall time of three repetitions, allocation = runtime TotalAlloc delta of one call; both only BOUNDED by the specification (50 ms + 200 ns * len^2, 8 MiB + 64 KiB * len)",
+                                    "hangs are detected by a 10 s deadline per call, not proved absent",
+                                    "the specification's other modules (C01-C07, C09, C12-C14, C16) judge the VALUES these entry points return; this check judges totality and resources"],
+                  rule="distinct (entry point, input) calls; non-trivial = non-empty input")
